@@ -213,6 +213,15 @@ def run_job(job: dict) -> dict:
                 task.variables = build_vars(job["retask_vars"], job["task"].get("names"))
                 if rec:
                     for f_ in glob.glob(rec + ".*"): os.unlink(f_)
+            if job.get("used_task"):
+                # the SAME task object has a history: samples drawn from it, earlier runs (of another optimizer instance) on it.  An equal task is an equal task.
+                ut = job["used_task"]
+                for _ in range(ut.get("draws", 0)): task.empty_solution()
+                for _ in range(ut.get("runs", 0)):
+                    try: cls(cfg).optimize(task)
+                    except Exception as e0: obs.setdefault("sequence_errors", []).append(type(e0).__name__)
+                if rec:
+                    for f_ in glob.glob(rec + ".*"): os.unlink(f_)
             if snaps is not None: del snaps[:]                # snapshots of earlier runs on this instance do not count
             res = o.optimize(task, **kw)
         if job.get("privates"):
